@@ -160,7 +160,7 @@ def malformed_payload(r: Any) -> bytes:
     if c == 3:
         return json.dumps({"task_id": "mx", "task_name": "t0", "labels": {"x": "zz"}, "labels_types": {"x": 2},
                            "args": [0], "kwargs": {}}).encode()[: r.randint(5, 60)]
-    return json.dumps({"task_id": "mx", "task_name": "t0", "labels": {"x": "notint"}, "labels_types": {"x": 1},
+    return json.dumps({"task_id": "mx", "task_name": "t0", "labels": {"x": "notint"}, "labels_types": {"x": 2},
                        "args": [0], "kwargs": {}}).encode()
 
 
@@ -203,6 +203,8 @@ def gen_worker_script(rs: int, knobs: Optional[dict] = None) -> dict:
         mws.insert(rc.randint(0, len(mws)), {"retry": kn["retry"]})
     cfg["middlewares"] = mws
     tasks = gen_tasks(rc, kn)
+    n_real = len(tasks)
+    tasks.append({"name": "ghost", "client_only": True, "ctx": False, "sync": False, "deps": [], "root": []})
     n = rc.randint(*kn["n_msgs"])
     arrival = rc.choice(kn["arrival"])
     msgs: List[dict] = []
@@ -229,7 +231,7 @@ def gen_worker_script(rs: int, knobs: Optional[dict] = None) -> dict:
             m["task_name"] = "ghost"
             msgs.append(m)
             continue
-        ti = r.randrange(len(tasks))
+        ti = r.randrange(n_real)
         ts = tasks[ti]
         m["task"] = ti
         natt = 1 if kn["retry"] is None and kn["outcomes"].get("requeue", 0) == 0 else r.randint(1, 4)
